@@ -3,7 +3,8 @@
 //
 // config  = <wrapper>:<mutex>:<enabled>[:d]  (d = use the (bool) constructor of go/sgo)   wrapper ∈ g go sg sgo og ag ; mutex ∈ m tm sm stm ; enabled ∈ 1 0
 // ops     = <acq>[variant][!k]  or  <whole>[=v][!k]
-//   acq   : L lock | T try_lock | Tf try_lock_for | Tu try_lock_until
+//   acq   : L lock | T try_lock | Tf try_lock_for | Tu try_lock_until | Tz/Tn try_lock_for(0 / negative) | Tp try_lock_until(past)
+//           (Sz Sn Sp: the same boundary arguments for the shared timed forms)
 //           S lock_shared | Sc const lock() | St try_lock_shared | Sf try_lock_shared_for | Su try_lock_shared_until
 //   variant (handle life cycle): '' use+destroy | k unlock()+destroy | m move-construct | a move-assign both ways
 //   whole : ld load | st=v store | as=v operator= | cv operator T | md modify | rd read | xc=v exchange | ce=e/d compare_exchange
@@ -140,7 +141,7 @@ OpSpec parse_op(const std::string& s)
             o.v2 = atol(vals.substr(sl + 1).c_str());
         }
     }
-    static const std::vector<std::string> acqs = {"Tf", "Tu", "Sc", "St", "Sf", "Su", "L", "T", "S"};
+    static const std::vector<std::string> acqs = {"Tf", "Tu", "Tz", "Tn", "Tp", "Sc", "St", "Sf", "Su", "Sz", "Sn", "Sp", "L", "T", "S"};
     for (auto& a : acqs) {
         if (body.compare(0, a.size(), a) == 0) {
             std::string rest = body.substr(a.size());
@@ -189,6 +190,17 @@ void do_op(W& w, const std::string& text)
                     verif::emit("acq X u");
                     session<H>([&] { return w.try_lock_until(std::chrono::steady_clock::now() + kDur); }, true, o.variant);
                     done = true;
+                } else if (o.name == "Tz" || o.name == "Tn") {
+                    // boundary arguments: zero / negative duration
+                    auto d = std::chrono::milliseconds(o.name == "Tz" ? 0 : -3);
+                    verif::emit("acq X f");
+                    session<H>([&] { return w.try_lock_for(d); }, true, o.variant);
+                    done = true;
+                } else if (o.name == "Tp") {
+                    // boundary argument: a deadline that has already passed
+                    verif::emit("acq X u");
+                    session<H>([&] { return w.try_lock_until(std::chrono::steady_clock::now() - kDur); }, true, o.variant);
+                    done = true;
                 }
             }
         }
@@ -219,6 +231,15 @@ void do_op(W& w, const std::string& text)
                 } else if (o.name == "Su") {
                     verif::emit("acq S u");
                     session<SH>([&] { return cw.try_lock_shared_until(std::chrono::steady_clock::now() + kDur); }, false, o.variant);
+                    done = true;
+                } else if (o.name == "Sz" || o.name == "Sn") {
+                    auto d = std::chrono::milliseconds(o.name == "Sz" ? 0 : -3);
+                    verif::emit("acq S f");
+                    session<SH>([&] { return cw.try_lock_shared_for(d); }, false, o.variant);
+                    done = true;
+                } else if (o.name == "Sp") {
+                    verif::emit("acq S u");
+                    session<SH>([&] { return cw.try_lock_shared_until(std::chrono::steady_clock::now() - kDur); }, false, o.variant);
                     done = true;
                 }
             }
@@ -412,6 +433,9 @@ std::vector<std::string> ops_for(const std::string& wk, const std::string& mk, b
         if (timed) {
             add_variants("Tf");
             add_variants("Tu");
+            ops.push_back("Tz");
+            ops.push_back("Tn");
+            ops.push_back("Tp");
         }
     }
     if (hasS) {
@@ -423,6 +447,9 @@ std::vector<std::string> ops_for(const std::string& wk, const std::string& mk, b
         if (timed) {
             add_variants("Sf");
             add_variants("Su");
+            ops.push_back("Sz");
+            ops.push_back("Sn");
+            ops.push_back("Sp");
         }
     }
     if (hasLS) {
